@@ -1358,6 +1358,142 @@ theorem runOps_wt (g : Grammar) (hg : GWF g) (fuel : Nat) : ∀ (ops : List Op) 
     rw [runOps]
     exact runOps_wt g hg fuel ops _ _ (stepOp_wt g hg fuel pool s op hp)
 
+/-! ### Refinements: generation, dependent generation, `validate` -/
+
+theorem resolveDep_mhOK (mh mh' : MH) (deps : List (String × Val)) (s s1 : SynSt)
+    (h : resolveDep mh deps s = .ok mh' s1) (hok : mhOK mh = true) : mhOK mh' = true := by
+  cases mh with
+  | depIntRangeLo f hi =>
+    simp only [resolveDep] at h
+    cases hl : lookupVal deps f with
+    | none => simp only [hl] at h; exact absurd h (throwE_not_ok _ _ _ _)
+    | some x =>
+      simp only [hl] at h
+      cases x <;> try (exact absurd h (throwE_not_ok _ _ _ _); done)
+      rw [SynM.pure_ok] at h; obtain ⟨rfl, _⟩ := h; rfl
+  | depIntRangeHi lo f =>
+    simp only [resolveDep] at h
+    cases hl : lookupVal deps f with
+    | none => simp only [hl] at h; exact absurd h (throwE_not_ok _ _ _ _)
+    | some x =>
+      simp only [hl] at h
+      cases x <;> try (exact absurd h (throwE_not_ok _ _ _ _); done)
+      rw [SynM.pure_ok] at h; obtain ⟨rfl, _⟩ := h; rfl
+  | depListSize f =>
+    simp only [resolveDep] at h
+    cases hl : lookupVal deps f with
+    | none => simp only [hl] at h; exact absurd h (throwE_not_ok _ _ _ _)
+    | some x =>
+      simp only [hl] at h
+      cases x <;> try (exact absurd h (throwE_not_ok _ _ _ _); done)
+      rw [SynM.pure_ok] at h; obtain ⟨rfl, _⟩ := h; rfl
+  | depVarFrom f =>
+    simp only [resolveDep] at h
+    cases hl : lookupVal deps f with
+    | none => simp only [hl] at h; exact absurd h (throwE_not_ok _ _ _ _)
+    | some x =>
+      simp only [hl] at h
+      cases x <;> try (exact absurd h (throwE_not_ok _ _ _ _); done)
+      rename_i d e vs
+      cases hopts : strsOf vs with
+      | none => simp only [hopts] at h; exact absurd h (throwE_not_ok _ _ _ _)
+      | some opts =>
+        simp only [hopts] at h
+        cases opts with
+        | nil => exact absurd h (throwE_not_ok _ _ _ _)
+        | cons o os =>
+          simp only at h
+          rw [SynM.pure_ok] at h; obtain ⟨rfl, _⟩ := h; rfl
+  | intRange _ _ | intList _ | varRange _ | listSize _ _ | strSize _ _ _ | interval _ _ _
+  | floatRange | floatList _ =>
+    simp only [resolveDep] at h
+    rw [SynM.pure_ok] at h; obtain ⟨rfl, _⟩ := h; exact hok
+
+/-- the first step of creation under a dependent refinement -/
+theorem createNode_dep_inv (g : Grammar) (dec : Decider) (fuel : Nat) (base : Ty) (mh : MH)
+    (ctx : Ctx) (deps : List (String × Val)) (s s' : SynSt) (v : Val) (hdep : mh.isDep = true)
+    (h : createNode g dec fuel (.ann base mh) ctx deps s = .ok v s') :
+    ∃ fuel' mh' s1 v1 ctx', resolveDep mh deps s = .ok mh' s1 ∧
+      createNode g dec fuel' (.ann base mh') ctx' deps s1 = .ok v1 s' ∧
+      v = v1.setCtx ctx.depth ctx.exp := by
+  cases fuel with
+  | zero => rw [createNode] at h; exact absurd h (throwE_not_ok _ _ _ _)
+  | succ fuel =>
+    rw [createNode.eq_def] at h
+    simp only [hdep, if_true] at h
+    rw [SynM.bind_ok] at h
+    obtain ⟨mh', s1, hres, h⟩ := h
+    rw [SynM.bind_ok] at h
+    obtain ⟨v1, s2, hv1, h⟩ := h
+    rw [SynM.pure_ok] at h; obtain ⟨rfl, rfl⟩ := h
+    exact ⟨fuel, mh', s1, v1, _, hres, hv1, rfl⟩
+
+/-- every refinement's generator, dependent or not, at any position (any context, any sibling
+values, any state), produces a value satisfying the refinement -/
+theorem gen_sat (g : Grammar) (dec : Decider) (fuel : Nat) (base : Ty) (mh : MH) (ctx : Ctx)
+    (deps : List (String × Val)) (s s' : SynSt) (v : Val)
+    (hok : mhOK mh = true) (hd : depsOK deps (.ann base mh) = true)
+    (h : createNode g dec fuel (.ann base mh) ctx deps s = .ok v s') : sat mh deps v = true := by
+  by_cases hdep : mh.isDep = true
+  · obtain ⟨fuel', mh', s1, v1, ctx', hres, hv1, rfl⟩ :=
+      createNode_dep_inv g dec fuel base mh ctx deps s s' v hdep h
+    obtain ⟨hnd', _, _, hsat'⟩ := resolveDep_spec mh mh' deps s s1 hdep hres
+    have := gen_sat_nodep g dec fuel' base mh' ctx' deps s1 s' v1 hnd'
+      (resolveDep_mhOK mh mh' deps s s1 hres hok) hv1
+    rw [sat_setCtx]
+    exact hsat' base v1 hd this
+  · rw [Bool.not_eq_true] at hdep
+    exact gen_sat_nodep g dec fuel base mh ctx deps s s' v hdep hok h
+
+theorem validate_setCtx (mh : MH) (v : Val) (d e : Nat) :
+    validate mh (v.setCtx d e) = validate mh v := by
+  cases v <;> cases mh <;> simp [Val.setCtx, validate]
+
+/-- the documented predicate implies the metahandler's own (repaired) validity check -/
+theorem validate_of_sat (mh : MH) (deps : List (String × Val)) (v : Val)
+    (hnd : mh.isDep = false) (h : sat mh deps v = true) : validate mh v = true := by
+  unfold sat at h
+  split at h <;> first
+    | rfl
+    | (simp only [validate]; simp only [Bool.and_eq_true, decide_eq_true_eq] at h ⊢; omega)
+    | (simp only [validate]; exact h)
+    | (simp [MH.isDep] at hnd; done)
+    | (cases h; done)
+
+/-- ... and conversely, except that `IntervalRange.validate` does not check `0 ≤ start` -/
+theorem sat_of_validate (mh : MH) (deps : List (String × Val)) (v : Val)
+    (hnd : mh.isDep = false) (hni : ∀ a b c, mh ≠ .interval a b c)
+    (h : validate mh v = true) : sat mh deps v = true := by
+  unfold validate at h
+  split at h <;> first
+    | rfl
+    | (exact absurd rfl (hni _ _ _); done)
+    | (simp only [sat]; simp only [Bool.and_eq_true, decide_eq_true_eq] at h ⊢; omega)
+    | (simp only [sat]; exact h)
+    | (cases h; done)
+
+/-- the earlier siblings of position `i`: declared names paired with the actual values -/
+def siblings (fs : List (String × Ty)) (args : List Val) (i : Nat) : List (String × Val) :=
+  ((fs.take i).map (·.1)).zip (args.take i)
+
+theorem wtFields_sat (g : Grammar) : ∀ (fs : List (String × Ty)) (vs : List Val)
+    (deps : List (String × Val)) (i : Nat) (name : String) (t : Ty) (mh : MH),
+    wtFields g deps fs vs = true → fs[i]? = some (name, .ann t mh) →
+    ∃ a, vs[i]? = some a ∧ sat mh (deps ++ siblings fs vs i) a = true
+  | [], _, _, _, _, _, _, _, hi => by simp at hi
+  | _ :: _, [], _, _, _, _, _, h, _ => by simp [wtFields] at h
+  | (n0, t0) :: fs, v0 :: vs, deps, 0, name, t, mh, h, hi => by
+    simp only [List.getElem?_cons_zero, Option.some.injEq, Prod.mk.injEq] at hi
+    obtain ⟨rfl, rfl⟩ := hi
+    rw [wtFields, Bool.and_eq_true, wt, Bool.and_eq_true] at h
+    exact ⟨v0, rfl, by simpa [siblings] using h.1.2⟩
+  | (n0, t0) :: fs, v0 :: vs, deps, i + 1, name, t, mh, h, hi => by
+    rw [wtFields, Bool.and_eq_true] at h
+    simp only [List.getElem?_cons_succ] at hi ⊢
+    obtain ⟨a, ha, hs⟩ := wtFields_sat g fs vs _ i name t mh h.2 hi
+    refine ⟨a, ha, ?_⟩
+    simpa [siblings, List.append_assoc] using hs
+
 /-! ### A concrete grammar for the non-vacuity examples of Props/C01 and Props/C02
 
 `Expr` (abstract) ::= `Lit(v: Annotated[int, IntRange(0,9)])` | `Add(l: Expr, r: Expr)` |
